@@ -923,6 +923,10 @@ def _canon_node(n: RNode, pe):
   for c in n.children:
     cc = _canon_node(c, e)
     if cc is not None:
+      if n.kind in ("rb", "rt", "rp") and cc[0] == "el" and cc[1] == "br":
+        # the canonical model lets ruby bases, texts and delimiters hold spans only (doc/data_model.md): a line break in one
+        # of them sits in an anonymous span, like text does
+        cc = el_tuple("span", n.lang, n.space, None, (), (), cc[7], cc[8], (cc,))
       kids.append(cc)
   return el_tuple(n.kind, n.lang, n.space, n.region, norm_styles(n.styles), tuple(anims), b, e, tuple(kids))
 
